@@ -20,6 +20,11 @@ type AnyBox = Box<dyn Any + Send + Sync>;
 static REGISTRY: LazyLock<async_lock::RwLock<HashMap<TypeId, AnyBox>>> =
     LazyLock::new(Default::default);
 
+#[cfg(hannibal_verif)]
+pub(crate) async fn verif_registry_clear() {
+    REGISTRY.write().await.clear();
+}
+
 /// Service Related
 ///
 /// An actor that implements the [`Service`] trait can be registered, unregistered and replaced via an `Addr` as a service.
